@@ -365,6 +365,29 @@ func c12CtrMain(args []string) error {
 				}
 			}
 			o.End = settle(nil, o.Base)
+		case "buildfail":
+			// Build that fails in the configuration step (bind mount of a source that does not exist):
+			// the half-built environment must be torn down completely
+			one := func() {
+				root, err := os.MkdirTemp("", "verif-c12-bf-")
+				if err != nil {
+					return
+				}
+				defer os.RemoveAll(root)
+				b := container.Builder{Root: root, Mounts: mount.NewDefaultBuilder().
+					WithBind("/verif-no-such-source-dir", "nowhere", true).WithTmpfs("w", "").Mounts}
+				if e, err := b.Build(); err == nil {
+					e.Destroy()
+					o.Setup = "Build with a missing bind source did not fail"
+				}
+			}
+			one()
+			time.Sleep(50 * time.Millisecond)
+			o.Base = sample(nil)
+			for rep := 0; rep < c.Reps; rep++ {
+				one()
+			}
+			o.End = settle(nil, o.Base)
 		case "build":
 			one := func() error {
 				s, err := newSession(args[0], sessOpt{})
